@@ -2,9 +2,20 @@
    A dead producer is a thread that is never scheduled again: `reach` quantifies over every schedule,
    hence over every set of producers stopped at arbitrary points.  Statements only; proofs are in
    Proofs/RingConc.v (invariant), RingConcThm.v (reachability), RingUnblock.v (unblock, following read). *)
-Require Import V.Base.MachineInt V.Generated.GenConsts V.Model.LogBase V.Model.Ring V.Model.RingThreads
-               V.Spec.Fifo V.Proofs.RingArith V.Proofs.RingSeq V.Proofs.RingRender V.Proofs.RingSeqRun
-               V.Proofs.RingConc V.Proofs.RingConcThm V.Proofs.RingUnblock V.Proofs.C06OracleProofs.
+Require Import V.Base.MachineInt.
+Require Import V.Generated.GenConsts.
+Require Import V.Model.LogBase.
+Require Import V.Model.Ring.
+Require Import V.Model.RingThreads.
+Require Import V.Spec.Fifo.
+Require Import V.Proofs.RingArith.
+Require Import V.Proofs.RingSeq.
+Require Import V.Proofs.RingRender.
+Require Import V.Proofs.RingSeqRun.
+Require Import V.Proofs.RingConc.
+Require Import V.Proofs.RingConcThm.
+Require Import V.Proofs.RingUnblock.
+Require Import V.Proofs.C06OracleProofs.
 Open Scope Z_scope.
 
 (* every configuration reachable under any schedule (inside the position window) satisfies the invariant *)
